@@ -32,8 +32,18 @@ class AbstractConstraint(object):
             self._testValue(value, idx)
 
         except error.ValueConstraintError:
+            exc = sys.exc_info()[1]
+
+            try:
+                failed = repr(exc)
+
+            except ValueError:
+                # the offending value may be unprintable, e.g. an integer
+                # beyond the interpreter's limit on integer to text conversion
+                failed = '<%s>' % exc.__class__.__name__
+
             raise error.ValueConstraintError(
-                '%s failed at: %r' % (self, sys.exc_info()[1])
+                '%s failed at: %s' % (self, failed)
             )
 
     def __repr__(self):
